@@ -41,7 +41,7 @@ def fresh_process_outputs(ctx, src, opts, n):
 def run(ctx):
     S, c = ctx.S, ctx.S.conv
     quick = ctx.tier == 'quick'
-    ctx.assumptions += ['HashSet/HashMap iteration order is arbitrary (every permutation), membership exact',
+    ctx.assumptions += ['HashSet/HashMap iteration order is arbitrary (every permutation up to 4 members; every rotation and the reverse beyond), membership exact',
                         'the crate\'s MIR contains no statics / thread-locals (checked per run); library internals are not encoded',
                         'real concurrency is not modelled: the argument is that calls share no state (ii); many-thread and fresh-process runs of the real '
                         'build are a supplement, not the decision']
@@ -126,24 +126,22 @@ def run(ctx):
             groups.append((pc, ca, hashed))
         # hash-order independence: two paths that can stem from the same input must agree
         if any_hash:
-            inputs = list(terms.values())
-            for i in range(len(groups)):
-                for j in range(i):
-                    if groups[i][1] == groups[j][1]:
-                        continue
-                    ctx.queries['discharged'] += 1
-                    pci = [x for x in groups[i][0] if not mentions_hash(x)]
-                    pcj = [x for x in groups[j][0] if not mentions_hash(x)]
-                    m = ctx.check(pci + pcj, z3.BoolVal(True))
-                    if m is None:
-                        continue
-                    key = 'C18/hash-order'
-                    seen[key] = seen.get(key, 0) + 1
-                    if seen[key] == 1:
-                        vals = dict(C08_defaults(H, hf32), **{k: model_value(m, v) for k, v in terms.items()})
-                        src2 = C08.render(vals, H, hf32, vals['e0.res'], mj)
-                        rep, det = native_hash(ctx, src2, opts)
-                        ctx.report(key, f'output depends on hash iteration order ({groups[i][2]}) for usage {vals}', det, rep, det)
+            for i, j in hash_pairs(groups):
+                if seen.get('C18/hash-order'):
+                    break
+                ctx.queries['discharged'] += 1
+                pci = [x for x in groups[i][0] if not mentions_hash(x)]
+                pcj = [x for x in groups[j][0] if not mentions_hash(x)]
+                m = ctx.check(pci + pcj, z3.BoolVal(True))
+                if m is None:
+                    continue
+                key = 'C18/hash-order'
+                seen[key] = seen.get(key, 0) + 1
+                if seen[key] == 1:
+                    vals = dict(C08_defaults(H, hf32), **{k: model_value(m, v) for k, v in terms.items()})
+                    src2 = C08.render(vals, H, hf32, vals['e0.res'], mj)
+                    rep, det = native_hash(ctx, src2, opts)
+                    ctx.report(key, f'output depends on hash iteration order ({groups[i][2]}) for usage {vals}', det, rep, det)
         ctx.extra.setdefault('hash_iterations_seen', 0)
         ctx.extra['hash_iterations_seen'] += int(any_hash)
         oks = [r for r in res if r[1] == 'ok']
@@ -225,23 +223,22 @@ def vertex_family(ctx, seen):
             continue
         ctx.queries['unsat'] += 1
         groups.append((pc, ca, hashed))
-    for i in range(len(groups)):
-        for j in range(i):
-            if groups[i][1] == groups[j][1]:
-                continue
-            ctx.queries['discharged'] += 1
-            pci = [x for x in groups[i][0] if not mentions_hash(x)]
-            pcj = [x for x in groups[j][0] if not mentions_hash(x)]
-            m = ctx.check(pci + pcj, z3.BoolVal(True))
-            if m is None:
-                continue
-            key = 'C18/hash-order (vertex structs)'
-            seen[key] = seen.get(key, 0) + 1
-            if seen[key] == 1:
-                lv = [model_value(m, l) for l in locs]
-                w = vsrc(lv)
-                rep, det = native_hash(ctx, w, {})
-                ctx.report(key, f'output depends on hash iteration order ({groups[i][2] or groups[j][2]}) for vertex structs with locations {lv}', det, rep, det)
+    for i, j in hash_pairs(groups):
+        if seen.get('C18/hash-order (vertex structs)'):
+            break
+        ctx.queries['discharged'] += 1
+        pci = [x for x in groups[i][0] if not mentions_hash(x)]
+        pcj = [x for x in groups[j][0] if not mentions_hash(x)]
+        m = ctx.check(pci + pcj, z3.BoolVal(True))
+        if m is None:
+            continue
+        key = 'C18/hash-order (vertex structs)'
+        seen[key] = seen.get(key, 0) + 1
+        if seen[key] == 1:
+            lv = [model_value(m, l) for l in locs]
+            w = vsrc(lv)
+            rep, det = native_hash(ctx, w, {})
+            ctx.report(key, f'output depends on hash iteration order ({groups[i][2] or groups[j][2]}) for vertex structs with locations {lv}', det, rep, det)
     oks = [r for r in res if r[1] == 'ok']
     ctx.vacuity_witness('vertex-struct purity assertions reachable', oks[0][0])
 
@@ -386,8 +383,24 @@ def native_sequence(ctx):
     return len(outs) != len(steps) or det['first_difference'] is not None, det
 
 
+def hash_pairs(groups):
+    """pairs of explored paths worth a co-satisfiability query: one representative per (input decisions, output); paths that differ only
+    in hash-order decisions share their input decisions, so an order dependence shows up inside one bucket first"""
+    buckets = {}
+    for idx, (pc, ca, hashed) in enumerate(groups):
+        key = tuple(sorted(str(x) for x in pc if not mentions_hash(x)))
+        buckets.setdefault(key, {}).setdefault(str(ca), idx)
+    pairs = []
+    for b in buckets.values():                      # same inputs, different outputs: the interesting pairs, first
+        reps = list(b.values())
+        pairs += [(reps[x], reps[y]) for x in range(len(reps)) for y in range(x)]
+    flat = [idx for b in buckets.values() for idx in list(b.values())[:1]]
+    pairs += [(flat[x], flat[y]) for x in range(len(flat)) for y in range(x) if str(groups[flat[x]][1]) != str(groups[flat[y]][1])]
+    return pairs
+
+
 def mentions_hash(f):
-    return 'hash_pick' in str(f)
+    return 'hash_pick' in str(f) or 'hash_reversed' in str(f)
 
 
 def C08_defaults(H, hf32):
